@@ -4,6 +4,8 @@ documented precondition — on both sides of every boundary.
 -/
 import CBV.Model.C20
 import CBV.Lemmas.C20
+import CBV.Lemmas.C20Guards
+import Mathlib.Tactic.LinearCombination
 import Mathlib.Tactic.Ring
 import Mathlib.Tactic.Linarith
 import Mathlib.Algebra.Order.Field.Rat
@@ -11,6 +13,8 @@ import Mathlib.Algebra.Order.Field.Rat
 namespace CBV.C20
 
 set_option linter.unusedSimpArgs false
+set_option linter.unusedVariables false
+set_option linter.unnecessarySeqFocus false
 
 /-! ### index guards: the documented range, enforced at both ends -/
 
@@ -976,5 +980,466 @@ theorem T_C20_add_label_keeps_rejected_label :
 
 example : (addClamp (1 / 10000000) [⟨0, 0, 0⟩] [0] ⟨0, 0, 0⟩).1.isReject = true ∧
     (meshStep {} .grade).1.isReject = true ∧ (slotUpdate [] [0, 1, 2]).1.isReject = true := by decide +kernel
+
+
+/-! ## Round 6: the guards regenerated from the source -/
+
+/-- the rows the translator printed from the current source decode to the model's table of guards -/
+theorem T_C20_guards_table : decodeTable CBV.Gen.c20Guards = some modelGuardTable := by decide +kernel
+
+/-- and they are exactly the encoding of the model's table (no row, token or constant more or less) -/
+theorem T_C20_guards_table_encoded :
+    CBV.Gen.c20Guards = modelGuardTable.map (fun p => (p.1, encode p.2)) := by decide +kernel
+
+/-- every entry point of the table has guards (a translator that finds nothing fails; an empty table proves nothing) -/
+theorem T_C20_guards_table_nonempty :
+    40 ≤ CBV.Gen.c20Guards.length ∧
+      CBV.Gen.c20Guards.all (fun p => !((genGuards p.1).flatMap Stmt.raises).isEmpty) = true := by decide +kernel
+
+/-! ### evaluating the regenerated guards on the arguments of a call gives the model's outcome, class included -/
+
+theorem T_C20_guards_translated_faceShape (tol : Rat) (rt : Rat → Rat) (n m : Nat) :
+    run tol (.faceShape n m) =
+      if n == 0 then .reject "IndexError"   -- the guard fires, formatting its message indexes the shape
+      else runStmts (envOf tol rt (.faceShape n m)) (genGuards "faceShape") := by
+  rw [show genGuards "faceShape" = G_faceShape by decide +kernel]
+  by_cases h : n = 0 <;> simp [G_faceShape, evalC, envOf, run, checks, h]
+
+theorem T_C20_guards_translated_faceEdges (tol : Rat) (rt : Rat → Rat) (k : Nat) :
+    runStmts (envOf tol rt (.faceEdges k)) (genGuards "faceEdges") = run tol (.faceEdges k) := by
+  rw [show genGuards "faceEdges" = G_faceEdges by decide +kernel]
+  simp [G_faceEdges, evalC, evalE, evalOp, envOf, run, checks]
+
+theorem T_C20_guards_translated_faceCoplanar (tol : Rat) (rt : Rat → Rat) (p0 p1 p2 p3 : V3) :
+    runStmts (envOf tol rt (.faceCoplanar p0 p1 p2 p3)) (genGuards "faceCoplanar") = run tol (.faceCoplanar p0 p1 p2 p3) := by
+  rw [show genGuards "faceCoplanar" = G_faceCoplanar by decide +kernel]
+  simp [G_faceCoplanar, evalC, evalE, evalV, evalOp, envOf, run, checks, triple]
+
+theorem T_C20_guards_translated_faceAddEdge (tol : Rat) (rt : Rat → Rat) (c : Int) :
+    runStmts (envOf tol rt (.faceAddEdge c)) (genGuards "faceAddEdge") = run tol (.faceAddEdge c) := by
+  rw [show genGuards "faceAddEdge" = G_faceAddEdge by decide +kernel]
+  simp [G_faceAddEdge, evalC, evalE, evalOp, envOf, nm, run, checks, faceCornerBad]
+
+theorem T_C20_guards_translated_faceProjectEdge (tol : Rat) (rt : Rat → Rat) (c : Int) :
+    runStmts (envOf tol rt (.faceProjectEdge c)) (genGuards "faceProjectEdge") = run tol (.faceProjectEdge c) := by
+  rw [show genGuards "faceProjectEdge" = G_faceProjectEdge by decide +kernel]
+  simp [G_faceProjectEdge, evalC, evalE, evalOp, envOf, nm, run, checks, faceCornerBad]
+
+theorem T_C20_guards_translated_faceRemoveEdges (tol : Rat) (rt : Rat → Rat) (cs : List Int) :
+    runStmts (envOf tol rt (.faceRemoveEdges cs)) (genGuards "faceRemoveEdges") = run tol (.faceRemoveEdges cs) := by
+  rw [show genGuards "faceRemoveEdges" = G_faceRemoveEdges by decide +kernel]
+  simp only [G_faceRemoveEdges, runStmts_each, runStmts_nil, eachOut_removeEdges, envOf, run]
+  cases removeEdgesRun cs <;> rfl
+
+theorem T_C20_guards_translated_pointShape (tol : Rat) (rt : Rat → Rat) (dims : List Nat) :
+    runStmts (envOf tol rt (.pointShape dims)) (genGuards "pointShape") = run tol (.pointShape dims) := by
+  rw [show genGuards "pointShape" = G_pointShape by decide +kernel]
+  simp [G_pointShape, evalC, envOf, run, checks]
+
+theorem T_C20_guards_translated_arrayShape (tol : Rat) (rt : Rat → Rat) (n m : Nat) :
+    run tol (.arrayShape n m) =
+      if n == 0 then .reject "IndexError"   -- `shape[1]` of an empty list
+      else runStmts (envOf tol rt (.arrayShape n m)) (genGuards "arrayShape") := by
+  rw [show genGuards "arrayShape" = G_arrayShape by decide +kernel]
+  by_cases h : n = 0 <;> simp [G_arrayShape, evalC, evalE, evalOp, envOf, run, checks, h]
+
+theorem T_C20_guards_translated_sideVertices (tol : Rat) (rt : Rat → Rat) (k : Nat) :
+    runStmts (envOf tol rt (.sideVertices k)) (genGuards "sideVertices") = run tol (.sideVertices k) := by
+  rw [show genGuards "sideVertices" = G_sideVertices by decide +kernel]
+  simp [G_sideVertices, evalC, evalE, evalOp, envOf, run, checks]
+
+theorem T_C20_guards_translated_opAddSideEdge (tol : Rat) (rt : Rat → Rat) (c : Int) :
+    runStmts (envOf tol rt (.opAddSideEdge c)) (genGuards "opAddSideEdge") = run tol (.opAddSideEdge c) := by
+  rw [show genGuards "opAddSideEdge" = G_opAddSideEdge by decide +kernel]
+  simp [G_opAddSideEdge, evalC, evalE, evalOp, envOf, nm, run, checks]
+
+theorem T_C20_guards_translated_opProjectCorner (tol : Rat) (rt : Rat → Rat) (c : Int) :
+    runStmts (envOf tol rt (.opProjectCorner c)) (genGuards "opProjectCorner") = run tol (.opProjectCorner c) := by
+  rw [show genGuards "opProjectCorner" = G_opProjectCorner by decide +kernel]
+  simp [G_opProjectCorner, evalC, evalE, evalOp, envOf, nm, run, checks]
+
+/-- what follows an accepted explicit guard: the rejections that come from look-ups and numpy further down -/
+def thenBelow (o : Out) (below : Out) : Out :=
+  match o with
+  | .reject cls => .reject cls
+  | .accept => below
+
+theorem T_C20_guards_translated_opProjectEdge (tol : Rat) (rt : Rat → Rat) (c1 c2 : Int) :
+    run tol (.opProjectEdge c1 c2) =
+      thenBelow (runStmts (envOf tol rt (.opProjectEdge c1 c2)) (genGuards "opProjectEdge"))
+        (checks [(!(frameHas c1.toNat c2.toNat), "KeyError"), (!(edgeMapHas c1.toNat c2.toNat), "AttributeError")]) := by
+  rw [show genGuards "opProjectEdge" = G_opProjectEdge by decide +kernel]
+  simp [G_opProjectEdge, evalC, evalE, evalOp, envOf, nm2, run, checks, thenBelow]
+  split <;> rename_i h
+  · have h' : (c1 < 0 ∨ 8 ≤ c1) ∨ c2 < 0 ∨ 8 ≤ c2 := by omega
+    simp [h']
+  · have h' : ¬((c1 < 0 ∨ 8 ≤ c1) ∨ c2 < 0 ∨ 8 ≤ c2) := by omega
+    simp [h']
+
+theorem T_C20_guards_translated_opUnchop (tol : Rat) (rt : Rat → Rat) (a : Int) :
+    runStmts (envOf tol rt (.opUnchop a)) (genGuards "opUnchop") = run tol (.opUnchop a) := by
+  rw [show genGuards "opUnchop" = G_opUnchop by decide +kernel]
+  simp [G_opUnchop, evalC, evalE, evalOp, envOf, nm, run, checks]
+  by_cases h0 : a = 0 <;> by_cases h1 : a = 1 <;> by_cases h2 : a = 2 <;> simp_all <;> omega
+
+theorem T_C20_guards_translated_opSide (tol : Rat) (rt : Rat → Rat) (side : String) :
+    runStmts (envOf tol rt (.opSide side)) (genGuards "opSide") = run tol (.opSide side) := by
+  rw [show genGuards "opSide" = G_opSide by decide +kernel]
+  simp [G_opSide, evalC, envOf, run, checks, CBV.Gen.sidesMap]
+  by_cases hb : side = "bottom" <;> by_cases ht : side = "top" <;> simp [hb, ht]
+
+theorem T_C20_guards_translated_fromSeries (tol : Rat) (rt : Rat → Rat) (k : Nat) :
+    runStmts (envOf tol rt (.fromSeries k)) (genGuards "fromSeries") = run tol (.fromSeries k) := by
+  rw [show genGuards "fromSeries" = G_fromSeries by decide +kernel]
+  simp [G_fromSeries, evalC, evalE, evalOp, envOf, run, checks]
+
+theorem T_C20_guards_translated_blockAddEdge (tol : Rat) (rt : Rat → Rat) (c1 c2 : Int) :
+    run tol (.blockAddEdge c1 c2) =
+      thenBelow (runStmts (envOf tol rt (.blockAddEdge c1 c2)) (genGuards "blockAddEdge"))
+        (checks [(!(frameHas c1.toNat c2.toNat), "KeyError")]) := by
+  rw [show genGuards "blockAddEdge" = G_blockAddEdge by decide +kernel]
+  simp [G_blockAddEdge, evalC, evalE, evalOp, envOf, nm2, run, checks, thenBelow]
+  split <;> rename_i h
+  · have h' : (c1 < 0 ∨ 8 ≤ c1) ∨ c2 < 0 ∨ 8 ≤ c2 := by omega
+    simp [h']
+  · have h' : ¬((c1 < 0 ∨ 8 ≤ c1) ∨ c2 < 0 ∨ 8 ≤ c2) := by omega
+    simp [h']
+
+theorem T_C20_guards_translated_projectLabels (tol : Rat) (rt : Rat → Rat) (n : Nat) :
+    runStmts (envOf tol rt (.projectLabels n)) (genGuards "projectLabels") = run tol (.projectLabels n) := by
+  rw [show genGuards "projectLabels" = G_projectLabels by decide +kernel]
+  simp [G_projectLabels, evalC, evalE, evalOp, envOf, run, checks]
+
+theorem T_C20_guards_translated_projectAddLabel (tol : Rat) (rt : Rat → Rat) (h new : List Nat) :
+    runStmts (envOf tol rt (.projectAddLabel h new)) (genGuards "projectAddLabel") = run tol (.projectAddLabel h new) := by
+  rw [show genGuards "projectAddLabel" = G_projectAddLabel by decide +kernel]
+  simp [G_projectAddLabel, evalC, evalE, evalOp, envOf, run, checks]
+
+theorem T_C20_guards_translated_lengthRatio (tol : Rat) (rt : Rat → Rat) (r : Rat) :
+    runStmts (envOf tol rt (.lengthRatio r)) (genGuards "lengthRatio") = run tol (.lengthRatio r) := by
+  rw [show genGuards "lengthRatio" = G_lengthRatio by decide +kernel]
+  simp [G_lengthRatio, evalC, evalE, evalOp, envOf, nm, run, checks]
+
+theorem T_C20_guards_translated_cylinder (tol : Rat) (rt : Rat → Rat) (a1 a2 rp : V3) :
+    run tol (.cylinder a1 a2 rp) =
+      thenBelow (runStmts (envOf tol rt (.cylinder a1 a2 rp)) (genGuards "cylinder"))
+        (checks [(isZero (a2 - a1) || isZero (rp - a1), "*")]) := by
+  rw [show genGuards "cylinder" = G_cylinder by decide +kernel]
+  simp [G_cylinder, evalC, evalE, evalV, evalOp, envOf, run, checks, thenBelow]
+  split <;> simp_all
+
+theorem T_C20_guards_translated_frustum (tol : Rat) (rt : Rat → Rat) (a1 a2 rp : V3) :
+    run tol (.frustum a1 a2 rp) =
+      thenBelow (runStmts (envOf tol rt (.frustum a1 a2 rp)) (genGuards "frustum"))
+        (checks [(isZero (a2 - a1) || isZero (rp - a1), "*")]) := by
+  rw [show genGuards "frustum" = G_frustum by decide +kernel]
+  simp [G_frustum, evalC, evalE, evalV, evalOp, envOf, run, checks, thenBelow]
+  split <;> simp_all
+
+theorem T_C20_guards_translated_chain (tol : Rat) (rt : Rat → Rat) (kind : Nat) (len : Rat) :
+    run tol (.chain kind len) =
+      thenBelow (runStmts (envOf tol rt (.chain kind len))
+          (genGuards (if kind = 0 then "chainCylinder" else if kind = 1 then "chainFrustum" else "chainRing")))
+        (checks [(decide (len = 0), "*")]) := by
+  rcases kind with _ | _ | k
+  · rw [if_pos rfl, show genGuards "chainCylinder" = G_chainCylinder by decide +kernel]
+    simp [G_chainCylinder, evalC, evalE, evalOp, envOf, nm, run, checks, thenBelow, chainClass]
+    split <;> simp_all
+  · rw [if_neg (by omega), if_pos rfl, show genGuards "chainFrustum" = G_chainFrustum by decide +kernel]
+    simp [G_chainFrustum, evalC, evalE, evalOp, envOf, nm, run, checks, thenBelow, chainClass]
+    split <;> simp_all
+  · rw [if_neg (by omega), if_neg (by omega), show genGuards "chainRing" = G_chainRing by decide +kernel]
+    simp [G_chainRing, evalC, evalE, evalOp, envOf, nm, run, checks, thenBelow, chainClass]
+    split <;> simp_all
+
+theorem T_C20_guards_translated_ringContract (tol : Rat) (rt : Rat → Rat) (rnew rsrc : Rat) :
+    runStmts (envOf tol rt (.ringContract rnew rsrc)) (genGuards "ringContract") = run tol (.ringContract rnew rsrc) := by
+  rw [show genGuards "ringContract" = G_ringContract by decide +kernel]
+  simp [G_ringContract, evalC, evalE, evalOp, envOf, nm2, run, checks]
+
+theorem T_C20_guards_translated_cylinderFill (tol : Rat) (rt : Rat → Rat) (nseg : Nat) :
+    runStmts (envOf tol rt (.cylinderFill nseg)) (genGuards "cylinderFill") = run tol (.cylinderFill nseg) := by
+  rw [show genGuards "cylinderFill" = G_cylinderFill by decide +kernel]
+  simp [G_cylinderFill, evalC, evalE, evalOp, envOf, nm, run, checks]
+
+theorem T_C20_guards_translated_loftedShape (tol : Rat) (rt : Rat → Rat) (n1 n2 : Nat) (mids : List Nat) :
+    runStmts (envOf tol rt (.loftedShape n1 n2 mids)) (genGuards "loftedShape") = run tol (.loftedShape n1 n2 mids) := by
+  rw [show genGuards "loftedShape" = G_loftedShape by decide +kernel]
+  cases mids <;> simp [G_loftedShape, evalC, evalE, evalOp, envOf, nm2, run, checks]
+
+theorem T_C20_guards_translated_stackSlice (tol : Rat) (rt : Rat → Rat) (axis idx : Int) (n0 n1 n2 : Nat) :
+    run tol (.stackSlice axis idx n0 n1 n2) =
+      thenBelow (runStmts (envOf tol rt (.stackSlice axis idx n0 n1 n2)) (genGuards "stackSlice"))
+        (checks [(axis == 2 && decide ((n2 : Int) ≤ idx), "IndexError"),
+                 (axis == 0 && decide (0 < n2) && decide (0 < n1) && decide ((n0 : Int) ≤ idx), "IndexError"),
+                 (axis == 1 && decide (0 < n2) && decide ((n1 : Int) ≤ idx), "IndexError")]) := by
+  rw [show genGuards "stackSlice" = G_stackSlice by decide +kernel]
+  simp [G_stackSlice, evalC, evalE, evalOp, envOf, nm2, run, checks, thenBelow,
+    eq_comm (a := (0 : ℤ)), eq_comm (a := (1 : ℤ)), eq_comm (a := (2 : ℤ))]
+  by_cases h0 : axis = 0 <;> by_cases h1 : axis = 1 <;> by_cases h2 : axis = 2 <;> simp_all <;>
+    (by_cases hi : idx < 0 <;> simp_all <;> (have hn : ¬ idx < 0 := by omega) <;> simp [hn])
+
+theorem T_C20_guards_translated_curveParam (tol : Rat) (rt : Rat → Rat) (p lo hi : Rat) :
+    runStmts (envOf tol rt (.curveParam p lo hi)) (genGuards "curveParam") = run tol (.curveParam p lo hi) := by
+  rw [show genGuards "curveParam" = G_curveParam by decide +kernel]
+  simp [G_curveParam, evalC, evalE, evalOp, envOf, run, checks]
+
+theorem T_C20_guards_translated_polarArgs (tol : Rat) (rt : Rat → Rat) (d : Int) (axis : String) :
+    runStmts (envOf tol rt (.polarArgs d axis)) (genGuards "polarCartesian") = run tol (.polarArgs d axis) := by
+  rw [show genGuards "polarCartesian" = G_polarCartesian by decide +kernel]
+  simp [G_polarCartesian, evalC, evalE, evalOp, envOf, nm, run, checks,
+    eq_comm (a := (-1 : ℤ)), eq_comm (a := (1 : ℤ))]
+
+theorem T_C20_guards_translated_elbowChain (tol : Rat) (rt : Rat → Rat) (isDisk : Bool) :
+    runStmts (envOf tol rt (.elbowChain isDisk)) (genGuards "elbowChain") = run tol (.elbowChain isDisk) := by
+  rw [show genGuards "elbowChain" = G_elbowChain by decide +kernel]
+  simp [G_elbowChain, evalC, envOf, run, checks]
+
+theorem T_C20_guards_translated_polylineShape (tol : Rat) (rt : Rat → Rat) (dims : List Nat) :
+    runStmts (envOf tol rt (.polylineShape dims)) (genGuards "polylineShape") = run tol (.polylineShape dims) := by
+  rw [show genGuards "polylineShape" = G_polylineShape by decide +kernel]
+  match dims with
+  | [] => simp [G_polylineShape, evalC, evalE, evalOp, envOf, run, checks, pyShape]
+  | [a] => simp [G_polylineShape, evalC, evalE, evalOp, envOf, run, checks, pyShape_one]
+  | [n, m] =>
+      by_cases hn : n = 0
+      · subst hn; simp [G_polylineShape, evalC, evalE, evalOp, envOf, run, checks, pyShape]
+      · simp [G_polylineShape, evalC, evalE, evalOp, envOf, run, checks, pyShape_two n m hn, hn]
+  | a :: b :: c :: r =>
+      cases a <;> cases b <;> cases c <;> simp [G_polylineShape, evalC, evalE, evalOp, envOf, run, checks, pyShape]
+      intro h
+      exfalso
+      have := Nat.cast_nonneg (α := ℚ) (pyShape r).length
+      linarith
+
+/-- the pairs of a `{a, b} in <pairs>` condition, as the translator resolved them from the source -/
+def pairsOf : List Stmt → List (Int × Int)
+  | [.s (.raise _ (.not (.pairin _ _ pairs)))] => pairs
+  | _ => []
+
+def samePair (p q : Int × Int) : Bool := (p.1 == q.1 && p.2 == q.2) || (p.1 == q.2 && p.2 == q.1)
+
+/- full statement (not proved: the case analysis over 12 × 12 unordered pairs is beyond `omega` within the budget):
+   runStmts (envOf tol rt (.frameAddBeam c1 c2)) (genGuards "frameAddBeam") = run tol (.frameAddBeam c1 c2).
+   Proved: the guard has the shape `if {corner_1, corner_2} not in <pairs>: raise ValueError` and its pairs are, as
+   unordered pairs, exactly the generated `EDGE_PAIRS` that the model's `validPair` looks up. -/
+theorem T_C20_guards_translated_frameAddBeam_partial :
+    genGuards "frameAddBeam" =
+      [.s (.raise "ValueError" (.not (.pairin (.var "corner_1") (.var "corner_2") (pairsOf (genGuards "frameAddBeam")))))] ∧
+    (pairsOf (genGuards "frameAddBeam")).length = 12 ∧
+    (pairsOf (genGuards "frameAddBeam")).all (fun p =>
+        CBV.Gen.edgePairs.any (fun q => samePair p (((q.1 : Nat) : Int), ((q.2 : Nat) : Int)))) = true ∧
+    CBV.Gen.edgePairs.all (fun q =>
+        (pairsOf (genGuards "frameAddBeam")).any (fun p => samePair p (((q.1 : Nat) : Int), ((q.2 : Nat) : Int)))) = true := by
+  decide +kernel
+
+/-- the state machines: the guards of `Mesh.grade`, `Mesh.backport`, `Junction.add_clamp`, `GridBase.add_link` -/
+theorem T_C20_guards_translated_mesh (s : MeshSt) :
+    (meshStep s .grade).1 = runStmts { tol := 0, flag := fun _ => s.assembled } (genGuards "meshGrade") ∧
+    (meshStep s .backport).1 = runStmts { tol := 0, flag := fun _ => s.assembled } (genGuards "meshBackport") := by
+  rw [show genGuards "meshGrade" = G_meshGrade by decide +kernel,
+    show genGuards "meshBackport" = G_meshBackport by decide +kernel]
+  cases h : s.assembled <;> simp [G_meshGrade, G_meshBackport, evalC, meshStep, h]
+
+theorem T_C20_guards_translated_junction (tol : Rat) (pts : List V3) (clamped : List Nat) (pos : V3) (i : Nat)
+    (h : firstNear tol pos pts 0 = some i) :
+    (addClamp tol pts clamped pos).1 =
+      runStmts { tol := tol, flag := fun _ => clamped.contains i } (genGuards "junctionAddClamp") := by
+  rw [show genGuards "junctionAddClamp" = G_junctionAddClamp by decide +kernel]
+  simp only [addClamp, h]
+  cases hc : clamped.contains i <;> simp [G_junctionAddClamp, evalC, hc]
+
+example : firstNear (1 / 10000000) ⟨0, 0, 0⟩ [⟨0, 0, 0⟩] 0 = some 0 := by decide +kernel
+
+def idxOf? : Option Nat → Rat
+  | none => -1
+  | some i => (i : Rat)
+
+theorem T_C20_guards_translated_link (tol : Rat) (pts : List V3) (leader follower : V3) :
+    addLink tol pts leader follower =
+      runStmts { tol := tol, rat := nm2 "leader_index" (idxOf? (linkScan tol leader follower pts 0 none none).1)
+                                       "follower_index" (idxOf? (linkScan tol leader follower pts 0 none none).2) }
+        (genGuards "gridAddLink") := by
+  rw [show genGuards "gridAddLink" = G_gridAddLink by decide +kernel]
+  unfold addLink
+  rcases hs : linkScan tol leader follower pts 0 none none with ⟨li, fi⟩
+  have hneg : ∀ k : Nat, ¬ ((k : Rat) = -1) := by
+    intro k hk
+    have : (0 : Rat) ≤ (k : Rat) := Nat.cast_nonneg k
+    linarith
+  cases li with
+  | none => simp [G_gridAddLink, evalC, evalE, evalOp, nm2, idxOf?]
+  | some l =>
+      cases fi with
+      | none => simp [G_gridAddLink, evalC, evalE, evalOp, nm2, idxOf?, hneg]
+      | some f =>
+          simp [G_gridAddLink, evalC, evalE, evalOp, nm2, idxOf?, hneg]
+
+theorem T_C20_guards_translated_annulus (tol : Rat) (rt : Rat → Rat) (c p n : V3) (rin : Rat) (nseg : Int)
+    (htol : 0 ≤ tol)
+    (hn : 0 < rt (V3.norm2 n)) (hnn : rt (V3.norm2 n) * rt (V3.norm2 n) = V3.norm2 n)
+    (hv : 0 ≤ rt (V3.norm2 (p - c))) (hvv : rt (V3.norm2 (p - c)) * rt (V3.norm2 (p - c)) = V3.norm2 (p - c)) :
+    ∃ c0 c1 c2,
+      (genGuards "annulus").flatMap Stmt.raises =
+        [("AnnulusCreationError", c0), ("AnnulusCreationError", c1), ("AnnulusCreationError", c2)] ∧
+      run tol (.annulus c p n rin nseg) = checks [
+        (evalC (envOf tol rt (.annulus c p n rin nseg)) c0, "AnnulusCreationError"),
+        (nseg == 0, "ZeroDivisionError"), (isZero n || isZero (p - c), "*"), (decide (nseg < 0), "IndexError"),
+        (nseg == 1, "AnnulusCreationError"),
+        (evalC (envOf tol rt (.annulus c p n rin nseg)) c1, "AnnulusCreationError"),
+        (evalC (envOf tol rt (.annulus c p n rin nseg)) c2, "AnnulusCreationError")] := by
+  rw [show genGuards "annulus" = G_annulus by decide +kernel]
+  refine ⟨_, _, _, rfl, ?_⟩
+  by_cases hr : rin < 0
+  · simp [run, checks, evalC, evalE, evalOp, envOf, hr]
+  · have h0 : 0 ≤ rin := not_lt.mp hr
+    have h1 := (T_C20_radii_squared tol rin _ (p - c) hv hvv h0 htol).1
+    have h2 := (T_C20_lean_squared tol _ n (p - c) hn hnn htol).1
+    have e : V3.dot (V3.smul (1 / rt (V3.norm2 n)) n) (p - c) = V3.dot n (p - c) / rt (V3.norm2 n) := by
+      rw [dot_smul_left]; ring
+    simp only [run, checks, evalC, evalE, evalV, evalOp, envOf, e]
+    simp only [show (("self.outer_radius" : String) == "inner_radius") = false by decide,
+      show (("self.outer_radius" : String) == "self.inner_radius") = false by decide,
+      show (("self.inner_radius" : String) == "inner_radius") = false by decide,
+      show (("outer_radius_point" : String) == "normal") = false by decide,
+      show (("center_point" : String) == "normal") = false by decide,
+      show (("center_point" : String) == "outer_radius_point") = false by decide,
+      beq_self_eq_true, if_true, Bool.false_eq_true, if_false, Int.cast_zero]
+    rw [decide_eq_decide.mpr h1, e, decide_eq_decide.mpr h2]
+
+example : (0 : Rat) ≤ 1 / 10000000 ∧ (0 : Rat) < 2 ∧ (2 : Rat) * 2 = V3.norm2 ⟨0, 0, 2⟩ ∧
+    (0 : Rat) ≤ 5 ∧ (5 : Rat) * 5 = V3.norm2 ((⟨3, 4, 0⟩ : V3) - ⟨0, 0, 0⟩) := by decide +kernel
+
+/-- `RotationLink.__init__`: the one guard is `f.norm(<leader radius vector>) < TOL`; evaluated with root witnesses
+    of `|axis|²` and of the squared norm of the radius vector it is the model's squared comparison -/
+theorem T_C20_guards_translated_rotationLink (tol : Rat) (rt : Rat → Rat) (leader origin axis : V3)
+    (htol : 0 ≤ tol)
+    (hs : 0 < rt (V3.norm2 axis)) (hss : rt (V3.norm2 axis) * rt (V3.norm2 axis) = V3.norm2 axis)
+    (hρ : 0 ≤ rt (V3.norm2 (radiusVector rt leader origin axis)))
+    (hρρ : rt (V3.norm2 (radiusVector rt leader origin axis)) * rt (V3.norm2 (radiusVector rt leader origin axis))
+            = V3.norm2 (radiusVector rt leader origin axis)) :
+    runStmts (envOf tol rt (.rotationLink leader origin axis)) (genGuards "rotationLink")
+      = run tol (.rotationLink leader origin axis) := by
+  rw [show genGuards "rotationLink" = G_rotationLink by decide +kernel]
+  have key : V3.norm2 (radiusVector rt leader origin axis)
+      = V3.norm2 (leader - origin) - (V3.dot (leader - origin) axis / rt (V3.norm2 axis)) *
+          (V3.dot (leader - origin) axis / rt (V3.norm2 axis)) := by
+    have hne : rt (V3.norm2 axis) ≠ 0 := ne_of_gt hs
+    obtain ⟨u, hu⟩ : ∃ u, u * rt (V3.norm2 axis) = 1 := ⟨1 / rt (V3.norm2 axis), one_div_mul_cancel hne⟩
+    have h1 : 1 / rt (V3.norm2 axis) = u := by
+      rw [div_eq_iff hne]; exact hu.symm
+    have hd : ∀ x : Rat, x / rt (V3.norm2 axis) = x * u := by
+      intro x; rw [div_eq_mul_one_div, h1]
+    simp only [radiusVector, hd, h1]
+    generalize rt (V3.norm2 axis) = s at hu hss
+    have hss' : s * s = axis.x * axis.x + axis.y * axis.y + axis.z * axis.z := hss
+    simp only [V3.norm2, V3.dot, V3.sub_x, V3.sub_y, V3.sub_z, V3.smul_x, V3.smul_y, V3.smul_z]
+    linear_combination
+      (-(u ^ 4 * ((leader.x - origin.x) * axis.x + (leader.y - origin.y) * axis.y + (leader.z - origin.z) * axis.z) ^ 2)) * hss'
+      + (u ^ 2 * ((leader.x - origin.x) * axis.x + (leader.y - origin.y) * axis.y + (leader.z - origin.z) * axis.z) ^ 2
+          * (u * s + 1)) * hu
+  have h := T_C20_rotation_link_squared tol _ _ (leader - origin) axis hs hss hρ (hρρ.trans key) htol
+  simp only [G_rotationLink, runStmts_mut, runStmts_raise, runStmts_nil, evalC, evalE, evalV, evalOp, envOf, run, checks]
+  apply if_congr _ rfl rfl
+  simp only [decide_eq_true_eq]
+  exact decide_eq_true_iff.trans h
+
+/-- non-vacuity of the root witnesses of `T_C20_guards_translated_rotationLink`: axis (0,0,2), leader − origin (3,4,5) -/
+example :
+    let rt : Rat → Rat := fun x => if x = 4 then 2 else if x = 25 then 5 else 0
+    (0 : Rat) < rt (V3.norm2 ⟨0, 0, 2⟩) ∧ rt (V3.norm2 ⟨0, 0, 2⟩) * rt (V3.norm2 ⟨0, 0, 2⟩) = V3.norm2 ⟨0, 0, 2⟩ ∧
+    0 ≤ rt (V3.norm2 (radiusVector rt ⟨3, 4, 5⟩ ⟨0, 0, 0⟩ ⟨0, 0, 2⟩)) ∧
+    rt (V3.norm2 (radiusVector rt ⟨3, 4, 5⟩ ⟨0, 0, 0⟩ ⟨0, 0, 2⟩)) * rt (V3.norm2 (radiusVector rt ⟨3, 4, 5⟩ ⟨0, 0, 0⟩ ⟨0, 0, 2⟩))
+      = V3.norm2 (radiusVector rt ⟨3, 4, 5⟩ ⟨0, 0, 0⟩ ⟨0, 0, 2⟩) := by decide +kernel
+
+/-! ### symmetry, read off the regenerated guards themselves -/
+
+/-- in every regenerated guard, a signed deviation (a dot or triple product) is compared with `TOL` only in the
+    form `abs(…) > TOL`: a dropped `abs` in the source breaks this -/
+theorem T_C20_guards_abs_symmetric :
+    CBV.Gen.c20Guards.all (fun p => absSymmetric (genGuards p.1)) = true := by decide +kernel
+
+/-- … and a guard of that form gives opposite deviations the same verdict, whatever the expression and the values -/
+theorem T_C20_guards_abs_mirror (env env' : Env) (e : E) (htol : env'.tol = env.tol)
+    (h : evalE env' e = - evalE env e) :
+    evalC env' (.cmp .gt (.abs e) .tol) = evalC env (.cmp .gt (.abs e) .tol) := by
+  have habs : ∀ x : Rat, absR (-x) = absR x := by
+    intro x
+    unfold absR
+    by_cases h1 : x < 0 <;> by_cases h2 : -x < 0 <;> simp [h1, h2] <;> linarith
+  simp only [evalC, evalE, evalOp, h, habs, htol]
+  exact decide_eq_decide.mpr Iff.rfl
+
+/-- mirrored inputs through the regenerated guards of `Cylinder` / `Frustum`: a radius point leaning by `+d` and one
+    leaning by `−d` towards the axis get the same outcome -/
+theorem T_C20_guards_mirrored_lean (tol : Rat) (rt : Rat → Rat) (a1 a2 rp rp' : V3)
+    (h : V3.dot (a2 - a1) (rp' - a1) = - V3.dot (a2 - a1) (rp - a1)) :
+    runStmts (envOf tol rt (.cylinder a1 a2 rp')) (genGuards "cylinder")
+        = runStmts (envOf tol rt (.cylinder a1 a2 rp)) (genGuards "cylinder") ∧
+    (runStmts (envOf tol rt (.frustum a1 a2 rp')) (genGuards "frustum")).isReject
+        = (runStmts (envOf tol rt (.frustum a1 a2 rp)) (genGuards "frustum")).isReject := by
+  have habs : ∀ x : Rat, absR (-x) = absR x := by
+    intro x
+    unfold absR
+    by_cases h1 : x < 0 <;> by_cases h2 : -x < 0 <;> simp [h1, h2] <;> linarith
+  rw [show genGuards "cylinder" = G_cylinder by decide +kernel, show genGuards "frustum" = G_frustum by decide +kernel]
+  simp [G_cylinder, G_frustum, evalC, evalE, evalV, evalOp, envOf, h, habs]
+
+example : V3.dot ((⟨0, 0, 1⟩ : V3) - ⟨0, 0, 0⟩) ((⟨1, 0, -1 / 2⟩ : V3) - ⟨0, 0, 0⟩)
+    = - V3.dot ((⟨0, 0, 1⟩ : V3) - ⟨0, 0, 0⟩) ((⟨1, 0, 1 / 2⟩ : V3) - ⟨0, 0, 0⟩) := by decide +kernel
+
+/-- index and range arguments are bounded from both sides by the regenerated guards (a removed lower or upper bound
+    breaks this) -/
+theorem T_C20_guards_two_sided :
+    [("faceAddEdge", "corner"), ("faceProjectEdge", "corner"), ("faceRemoveEdges", "corner"),
+     ("opAddSideEdge", "corner_idx"), ("opProjectCorner", "corner"), ("opProjectEdge", "corner_1"),
+     ("opProjectEdge", "corner_2"), ("blockAddEdge", "corner_1"), ("blockAddEdge", "corner_2"),
+     ("lengthRatio", "chop.length_ratio"), ("curveParam", "param")].all
+      (fun p => twoSided p.2 (genGuards p.1)) = true := by decide +kernel
+
+/-- entry points that mirror each other carry the same guard: `Face.add_edge` / `Face.project_edge`,
+    `Operation.project_edge` / `Block.add_edge`, `Cylinder` / `Frustum`, the three `chain`s, `Mesh.grade` /
+    `Mesh.backport`, `to_polar` / `to_cartesian` (axis) — same conditions, in the same order -/
+theorem T_C20_guards_mirrored_entry_points :
+    genGuards "faceAddEdge" = genGuards "faceProjectEdge" ∧
+    genGuards "opProjectEdge" = genGuards "blockAddEdge" ∧
+    (genGuards "cylinder").flatMap Stmt.conds = (genGuards "frustum").flatMap Stmt.conds ∧
+    (genGuards "chainCylinder").flatMap Stmt.conds = (genGuards "chainFrustum").flatMap Stmt.conds ∧
+    (genGuards "chainCylinder").flatMap Stmt.conds = (genGuards "chainRing").flatMap Stmt.conds ∧
+    genGuards "meshGrade" = genGuards "meshBackport" ∧
+    (genGuards "polarPolar").flatMap Stmt.conds = ((genGuards "polarCartesian").flatMap Stmt.conds).drop 1 := by
+  decide +kernel
+
+/-! ### what a rejected call leaves behind -/
+
+/-- the mutators and functions whose regenerated statements up to the last guard change no state -/
+def atomicEntries : List String :=
+  ["faceAddEdge", "faceProjectEdge", "opAddSideEdge", "opProjectCorner", "opProjectEdge", "opUnchop", "opSide",
+   "fromSeries", "blockAddEdge", "frameAddBeam", "lengthRatio", "chainCylinder", "chainFrustum", "chainRing",
+   "ringContract", "cylinderFill", "stackSlice", "curveParam", "polylineShape", "polarCartesian", "polarPolar",
+   "elbowChain", "meshGrade", "meshBackport", "junctionAddClamp", "gridAddLink"]
+
+theorem T_C20_guards_no_mutation_before_guard :
+    atomicEntries.all (fun e => mutFree (genGuards e)) = true := by decide +kernel
+
+/-- **whatever the arguments and whatever the outcome, these entry points have changed no state when their last
+    guard has been passed or has fired** — in particular a rejected call leaves everything as it was.  Moving an
+    assignment in front of a guard in the source breaks `T_C20_guards_no_mutation_before_guard`. -/
+theorem T_C20_guards_reject_unchanged (e : String) (he : e ∈ atomicEntries) (env : Env) :
+    (traceStmts env (genGuards e) []).2 = [] := by
+  apply traceStmts_of_mutFree
+  have h := T_C20_guards_no_mutation_before_guard
+  rw [List.all_eq_true] at h
+  exact h e he
+
+/-- the two proved exceptions (as the code is): `Project.add_label` has merged the labels before it checks their
+    number, and `Face.remove_edges` has replaced the edges of the corners before the offending one -/
+theorem T_C20_guards_mutation_before_guard_exceptions :
+    (traceStmts (envOf 0 (fun _ => 0) (.projectAddLabel [0, 1] [2])) (genGuards "projectAddLabel") [])
+        = (.reject "EdgeCreationError", ["self.label", "self.label"]) ∧
+    (traceStmts (envOf 0 (fun _ => 0) (.faceRemoveEdges [0, -1])) (genGuards "faceRemoveEdges") [])
+        = (.reject "FaceCreationError", ["self.edges"]) ∧
+    (traceStmts (envOf 0 (fun _ => 0) (.faceRemoveEdges [-1, 0])) (genGuards "faceRemoveEdges") [])
+        = (.reject "FaceCreationError", []) := by decide +kernel
 
 end CBV.C20
